@@ -444,8 +444,32 @@ def run_history(sc: dict, wall_limit: float = 30.0) -> dict:
             wrapped.__name__ = wrapped.__qualname__ = fn.__name__
             return wrapped
 
+        def make_ignoring_daemon(h: dict) -> Any:
+            """A daemon that ignores the stop flag and swallows the cancellation sent by ITS STOPPER (`stop_daemon` sets
+            DAEMON_CANCELLED before `task.cancel()`), so that the stopper abandons it; any other cancellation (the hung-task
+            stop of `run_tasks`) is honoured — the property's "tasks honour cancellation" stays true at the operator level."""
+            async def daemon(**kw: Any) -> None:
+                stopped = kw["stopped"]
+                swallowed = 0
+                while True:
+                    try:
+                        await asyncio.sleep(2.0 ** 20)
+                    except asyncio.CancelledError:
+                        why = repr(getattr(stopped, "reason", ""))
+                        if "DAEMON_CANCELLED" in why and "DAEMON_ABANDONED" not in why and swallowed < 1:
+                            swallowed += 1
+                            continue
+                        raise
+            daemon.__name__ = daemon.__qualname__ = h["id"]
+            return daemon
+
         orig_make = sim.obs.make_handler
-        sim.obs.make_handler = lambda h: wrap_handler(h, orig_make(h))  # type: ignore[method-assign]
+
+        def make_handler(h: dict) -> Any:
+            if h["kind"] == "daemon" and (h.get("daemon") or {}).get("mode") == "ignore":
+                return wrap_handler(h, make_ignoring_daemon(h))
+            return wrap_handler(h, orig_make(h))
+        sim.obs.make_handler = make_handler  # type: ignore[method-assign]
         sim.registry = scenario.build_registry(sim.sc, sim.obs)
 
         def on_request(req: dict) -> None:
